@@ -163,6 +163,21 @@ fn neutralize(doc: &mut Doc, sp: &Spell, cfg: &ACfg, t: &mut Tape) {
                             fix(elem, mode)
                         }
                     }
+                    Node::Row { cells, .. } => {
+                        for (elem, _, _) in cells {
+                            if elem.id == id {
+                                fix(elem, mode)
+                            }
+                        }
+                    }
+                    Node::Nest { outer, inner, .. } => {
+                        if outer.id == id {
+                            fix(outer, mode)
+                        }
+                        if inner.id == id {
+                            fix(inner, mode)
+                        }
+                    }
                     Node::Block { elem, kids, .. } => {
                         if elem.id == id {
                             fix(elem, mode)
@@ -501,6 +516,24 @@ pub fn check(ctx: &mut Ctx, id: &'static str) {
             let _ = n;
             fail
         });
+    }
+    match which {
+        Which::C03 => {
+            for c in ["ready-in-pending-parent", "ready-in-skip-parent", "ready-in-unregistered-parent", "ready-in-ready-parent", "ready-in-unwrapped-body-or-wrapper", "ready-at-depth>=2"] {
+                ctx.require_class(c);
+            }
+        }
+        Which::C02 => {
+            for c in ["has-unwrapped-element", "marker-at-byte-0", "marker-at-eof", "three-level-nesting", "ready-inline"] {
+                ctx.require_class(c);
+            }
+        }
+        Which::C04 => {
+            for c in ["has-pending-registered-element", "condition-holds-but-cannot-unwrap", "has-skip"] {
+                ctx.require_class(c);
+            }
+        }
+        Which::C14 => ctx.require_class("has-unwrapped-body"),
     }
     let (q, th) = (300_000u64, 3_000_000u64);
     ctx.random("ast-documents", 400, q, th, |t| gen_ast(t, which), |c, obs| oracle_ast(c, which, obs));
